@@ -66,3 +66,12 @@ claim('C02', 'differential bounded symbolic execution: real DiffXWriter vs indep
       '(1..4 / 1..5) and z3 shows the output equals REF_WRITE byte for byte; header grammar, sorted options and '
       'length framing are additionally checked without the reference.',
       BASE_NOTE + ' REF_WRITE is /verif/ref/spec.py; canonical JSON text from json.dumps.', 'DESIGN.md section 4, C02; section 3')
+
+claim('C03', 'differential bounded symbolic execution: real DiffXReader vs REF_READ on files from an independent spec-derived generator with symbolic section content; single-defect catalogue',
+      'Files are produced by a generator written from the specification (valid walks, permuted option order, optional '
+      'options absent, blank lines, LF/CRLF header lines); one preamble / diff section per run carries symbolic raw '
+      'bytes (0..3 quick / 0..5 thorough, optionally plus the section newline) under every own/inherited encoding, '
+      'indent and line_endings choice. z3 decides that the reader accepts exactly when the specification reading does '
+      'and that id, level, logical line, options and content equal it. Each single-defect mutation of the catalogue '
+      'must be rejected with a DiffXParseError whose line lies inside the offending section.',
+      BASE_NOTE + ' REF_READ is /verif/ref/spec.py.', 'DESIGN.md section 4, C03; section 3')
